@@ -193,6 +193,8 @@ func (w *Weaver) weaveFile(fset *token.FileSet, f *ast.File, src []byte, rel str
 	usedSync, usedOS := false, false
 	runtimeName, hasRuntime := importName(f, "runtime")
 	usedRuntime := false
+	mapsName, hasMaps := importName(f, "maps")
+	usedMaps := false
 
 	var funcStack []string
 	// statement-level yields: before every statement of a block except the
@@ -336,6 +338,20 @@ func (w *Weaver) weaveFile(fset *token.FileSet, f *ast.File, src []byte, rel str
 				}
 			}
 		case *ast.CallExpr:
+			if opt.MapRanges && hasMaps {
+				if fun, ok := x.Fun.(*ast.SelectorExpr); ok {
+					if pk, ok := fun.X.(*ast.Ident); ok && pk.Name == mapsName && len(x.Args) == 1 {
+						switch fun.Sel.Name {
+						case "Keys", "Values", "All":
+							// the iteration order of maps.Keys(m) etc. is the map's
+							add(off(x.Fun.Pos()), off(x.Fun.End())-off(x.Fun.Pos()), alias+".Map"+fun.Sel.Name)
+							w.Stats.MapRangesWoven++
+							w.Stats.MapRangesSeen++
+							usedMaps = true
+						}
+					}
+				}
+			}
 			if opt.Procs && hasRuntime {
 				if fun, ok := x.Fun.(*ast.SelectorExpr); ok {
 					if pk, ok := fun.X.(*ast.Ident); ok && pk.Name == runtimeName {
@@ -384,6 +400,9 @@ func (w *Weaver) weaveFile(fset *token.FileSet, f *ast.File, src []byte, rel str
 	}
 	if usedRuntime {
 		tail += fmt.Sprintf("\nvar _ = %s.NumCPU\n", runtimeName)
+	}
+	if usedMaps {
+		tail += fmt.Sprintf("\nvar _ = %s.Keys[map[int]int]\n", mapsName)
 	}
 	sort.SliceStable(edits, func(i, j int) bool {
 		if edits[i].off != edits[j].off {
